@@ -189,48 +189,54 @@ func (p *Prog) Flatten(anchors map[string]bool) ([]string, error) {
 	for f := range allInstances(p) {
 		funcs = append(funcs, f)
 	}
-	for _, f := range funcs {
-		if !anchors[p.AnchorName(f)] && f.Parent() == nil && !strings.HasPrefix(f.Synthetic, "bound method wrapper") {
-			// a non-anchor function is only ever looked at through its inlined copies
-			continue
-		}
-		n := 0
-		for round := 0; round < 400; round++ {
-			var target *ssa.Call
-			for _, b := range f.Blocks {
-				for _, in := range b.Instrs {
-					if c, ok := in.(*ssa.Call); ok && target == nil {
-						if g, _ := ssa.StaticInlinee(c); g != f && pick(g) {
-							target = c
+	// a pass may enable further inlining in functions visited earlier (a
+	// literal returned by an inlined helper becomes callable by name): repeat
+	for pass, changed := 0, true; changed && pass < 6; pass++ {
+		changed = false
+		for _, f := range funcs {
+			if !anchors[p.AnchorName(f)] && f.Parent() == nil && !strings.HasPrefix(f.Synthetic, "bound method wrapper") {
+				// a non-anchor function is only ever looked at through its inlined copies
+				continue
+			}
+			n := 0
+			for round := 0; round < 400; round++ {
+				var target *ssa.Call
+				for _, b := range f.Blocks {
+					for _, in := range b.Instrs {
+						if c, ok := in.(*ssa.Call); ok && target == nil {
+							if g, _ := ssa.StaticInlinee(c); g != f && pick(g) {
+								target = c
+							}
 						}
 					}
 				}
+				if target == nil {
+					break
+				}
+				g, _ := ssa.StaticInlinee(target)
+				if !f.InlineCall(target) {
+					return log, fmt.Errorf("flatten: cannot inline %s into %s", g, f)
+				}
+				f.Rebuild()
+				log = append(log, fmt.Sprintf("%s <- %s", p.FuncName(f), p.AnchorName(g)))
+				n++
 			}
-			if target == nil {
-				break
+			if n == 0 {
+				continue
 			}
-			g, _ := ssa.StaticInlinee(target)
-			if !f.InlineCall(target) {
-				return log, fmt.Errorf("flatten: cannot inline %s into %s", g, f)
+			changed = true
+			for round := 0; round < 400; round++ {
+				if f.ThreadConstantBranches(nonNil) == 0 {
+					break
+				}
+				f.Rebuild()
 			}
-			f.Rebuild()
-			log = append(log, fmt.Sprintf("%s <- %s", p.FuncName(f), p.AnchorName(g)))
-			n++
-		}
-		if n == 0 {
-			continue
-		}
-		for round := 0; round < 400; round++ {
-			if f.ThreadConstantBranches(nonNil) == 0 {
-				break
+			if f.SplitSharedReturns() {
+				f.Rebuild()
 			}
-			f.Rebuild()
-		}
-		if f.SplitSharedReturns() {
-			f.Rebuild()
-		}
-		if err := f.SanityCheck(); err != nil {
-			return log, fmt.Errorf("flatten: %v", err)
+			if err := f.SanityCheck(); err != nil {
+				return log, fmt.Errorf("flatten: %v", err)
+			}
 		}
 	}
 	return log, nil
